@@ -1133,9 +1133,11 @@ def gen_utils_glue():
 # rfa.py -> Gen/RfaGlue.v : the rfa() methods of the strategy classes (and the helpers they call) as glue terms
 # ==========================================================================================
 _RFA_METHODS = [("AbstractRFA", "_initial_oversample"), ("AbstractRFA", "_initial_x_oversample"), ("AbstractRFA", "_initial_y_oversample"),
-                ("PiecewiseConstantRFA", "rfa"), ("LinearFixedRFA", "rfa"), ("LinearAdaptiveRFA", "rfa"), ("ExpFixedRFA", "rfa"), ("ExpAdaptiveRFA", "rfa")]
+                ("PiecewiseConstantRFA", "rfa"), ("FunctionRFA", "rfa"), ("LinearFixedRFA", "rfa"), ("LinearAdaptiveRFA", "rfa"), ("ExpFixedRFA", "rfa"),
+                ("ExpAdaptiveRFA", "rfa")]
 
 
+@target("RfaGlue")
 def gen_rfa_glue():
     fname = "rfa.py"
     tree = ast.parse(_src(fname))
